@@ -1,5 +1,6 @@
 """C15 — merging sequences yields exactly the union of their music."""
 import itertools
+import os
 import gens as G
 import h3midi_util as H
 import pyimpl as P
@@ -57,7 +58,21 @@ def union_iv(list_of_timed):
     return norm_intervals(u)
 
 
+_DISTURBED = [False]      # a history case failed in this process: later inputs (the shrinker's) are judged in a new interpreter each
+
+
 def o_merge(inp):
+    if _DISTURBED[0] and os.environ.get("H9_CHILD") != "1":
+        # nothing is restored: the shrunk input must reproduce on its own, so it is judged where no earlier case has run
+        import h9_util
+        return h9_util.eval_fresh("C15", "merge", inp)
+    fails = o_merge_here(inp)
+    if inp.get("prelude") and any(not str(c).startswith("~") for c, _ in fails):
+        _DISTURBED[0] = True
+    return fails
+
+
+def o_merge_here(inp):
     rels = [[tuple(m) for m in r] for r in inp["rels"]]
     if not rels:
         return [("~skip:no-input", "")]
@@ -65,14 +80,54 @@ def o_merge(inp):
         tr, _ = rel_timed(r)
         if wf_violations(tr) or any(on > off for (_, _, on, off, _) in notes_of(tr)):
             return [("~skip:not-well-formed", "")]
+    sts = {int(k): v for k, v in (inp.get("states") or {}).items()}
+    # PRELUDE (seed round 9: a process-wide memo of WAIT messages, mutated in place by `scale`): before the merge that is judged, the same
+    # inputs are merged into a THROWAWAY object and that object is changed in place through the public API.  Values are independent, so
+    # nothing of this may reach the sequences built afterwards; the throwaway's own result is not judged here.
+    for op in inp.get("prelude") or []:
+        try:
+            tm = merged(rels, list(range(len(rels))), sts)
+            # throwaways whose relative view comes STRAIGHT from the conversion (not re-created by normalise): every input and the merged timeline,
+            # each built from absolute messages only
+            throw = [P.seq_in_state(r, "abs") for r in rels if r] + [P.Sequence(absolute_sequence=P.mk_abs([from_real(m) for m in tm.abs._messages])), tm]
+        except Exception:
+            throw = []
+        for t in throw:
+          try:
+            t.rel
+            t.abs
+            if op[0] == "scale":
+                t.scale(op[1], quantise_afterwards=False)
+            elif op[0] == "scale_q":
+                t.scale(op[1])
+            elif op[0] == "set_channel":
+                t.set_channel(op[1])
+            elif op[0] == "edit_waits":
+                for m in t.messages_rel():
+                    if m.message_type.value == "wait":
+                        m.time += op[1]
+            elif op[0] == "edit_abs":
+                for m in t.messages_abs():
+                    m.time += op[1]
+            elif op[0] == "quantise":
+                t.quantise([op[1]])
+            elif op[0] == "transpose":
+                t.transpose(op[1])
+            elif op[0] == "pad":
+                t.pad(op[1])
+          except Exception:
+            pass
     try:
-        sts = {int(k): v for k, v in (inp.get("states") or {}).items()}
         s = merged(rels, list(range(len(rels))), sts)
     except Exception as e:
         return [("raises", f"{type(e).__name__}: {e}")]
     out = [from_real(m) for m in s.rel._messages]
     tout, dout = rel_timed(out)
     tins = [rel_timed(r) for r in rels]
+    if dout > 4 * max(d for _, d in tins) + 1000:
+        # far longer than any input: say so without enumerating the sounding ticks of a runaway result (process-wide state that grows with
+        # every case would otherwise hang the search instead of failing it)
+        return [("duration", f"{dout} vs max of {[d for _, d in tins]}")]
     fails = []
     exp = union_iv([t for t, _ in tins])
     if sounding(tout) != exp:
@@ -156,6 +211,19 @@ def setup(ctx):
 
 def generate(ctx):
     rng = ctx.rng
+    prelude_cases = []
+    try:
+        generate_main(ctx, rng, prelude_cases)
+    finally:
+        # the history cases run LAST and stop at the first failure: on a tree with process-wide state every later case would be judged in a
+        # poisoned process (and a state that grows with every case makes later cases arbitrarily slow)
+        for inp in prelude_cases:
+            ctx.count("prelude:" + inp["prelude"][0][0])
+            if [f for f in (ctx.check("merge", inp) or []) if not str(f[0]).startswith("~")]:
+                break
+
+
+def generate_main(ctx, rng, prelude_cases):
     ctx.check("merge", D17C_EXAMPLE)            # the recorded instance of the known finding
     for i in range(ctx.n(300, 8000)):
         k = rng.choice([1, 2, 2, 3])
@@ -204,6 +272,13 @@ def generate(ctx):
         if i % 4 == 0:
             ctx.count("wrapper-states")
             ctx.check("merge", {"rels": rels, "states": {str(j): rng.choice(P.SEQ_STATES) for j in range(len(rels))}})
+        if i % 3 == 1:
+            # the same merge after a throwaway merge of the same data was changed in place (process-wide state must not exist)
+            pre = [rng.choice([["scale", rng.choice([2, 3])], ["scale_q", 2], ["set_channel", rng.choice([1, 5])], ["edit_waits", rng.choice([1, 7])],
+                               ["edit_abs", rng.choice([1, 5])], ["quantise", rng.choice([5, 7, 36])], ["transpose", rng.choice([1, -13])], ["pad", 200]])
+                   for _ in range(rng.choice([1, 1, 2]))]
+            st = {str(j): rng.choice(["abs", "abs", "rel", "both"]) for j in range(len(rels))} if rng.random() < 0.7 else None
+            prelude_cases.append(dict({"rels": rels, "prelude": pre}, **({"states": st} if st else {})))
         a0 = [from_real(m) for m in P.seq_of_rel(rels[0]).abs._messages]
         others = [[from_real(m) for m in P.seq_of_rel(r).abs._messages] for r in rels[1:]]
         ctx.corr("seq", P.op_seq(("rel", rels[0]), [("merge", others), ("readAbs",), ("readRel",)]))
